@@ -16,11 +16,21 @@
  * argc+1 pointers, so ASan sees any read outside the input.
  *
  * The tables below are mirrored line by line in lean/Percival/Driver/Getopt.lean (`tables`).
+ *
+ * -DHC_BLACKBOX (used when the white-box build no longer compiles, e.g. after a static of getopt.c was
+ * renamed): getopt.c is compiled separately and only getopt.h is used (the macros, optarg, optind, opterr,
+ * optreset).  The same L1 part is printed and no L2 part.  The statics of getopt.c cannot be put back to
+ * their load-time values, so every case gets its own process (bb_fresh); `case` only sets the public
+ * variables as a program start would find them.
  */
 #include "hcommon.h"
 
+#ifdef HC_BLACKBOX
+#include "getopt.h"
+#else
 /* White-box: reach packedopts / opt_found / opts. */
 #include "getopt.c"
+#endif
 
 /* More reports than any input here can produce: a parser which does not advance. */
 #define MAXREP 512
@@ -49,6 +59,12 @@ l2_hex(const char * s)
 static void
 l2_state(char * const argv[], int argc, int witharg)
 {
+#ifdef HC_BLACKBOX
+	(void)argv;
+	(void)argc;
+	(void)witharg;
+	(void)l2_hex;
+#else
 
 	l2len += (size_t)snprintf(l2buf + l2len, sizeof(l2buf) - l2len, "%d,", optind);
 	if (packedopts == NULL)
@@ -71,6 +87,7 @@ l2_state(char * const argv[], int argc, int witharg)
 		l2len += (size_t)snprintf(l2buf + l2len, sizeof(l2buf) - l2len, ",");
 		l2_hex(optarg);
 	}
+#endif
 }
 
 static void
@@ -333,17 +350,21 @@ static void
 fresh_process(void)
 {
 
+#ifndef HC_BLACKBOX
 	free(opts);
 	opts = NULL;
 	nopts = 0;
 	opt_missing = opt_default = opt_found = 0;
 	packedopts = NULL;
 	cmdname = NULL;
+#endif
 	optarg = NULL;
 	optind = 1;
 	opterr = 1;
 	optreset = 1;
+#ifndef HC_BLACKBOX
 	getopt_initialized = 0;
+#endif
 }
 
 int
@@ -407,14 +428,22 @@ main(void)
 		} else if (stopped == 2) {
 			printf("runaway\n");
 		} else if (stopped) {
+#ifdef HC_BLACKBOX
+			printf("stop\n");
+#else
 			printf("stop | %s\n", l2buf);
+#endif
 		} else {
 			printf("end=%d", optind);
 			if (nrep > 0)
 				l2len += (size_t)snprintf(l2buf + l2len,
 				    sizeof(l2buf) - l2len, ";");
 			l2_state(av, ac, 0);
+#ifdef HC_BLACKBOX
+			printf("\n");
+#else
 			printf(" | %s\n", l2buf);
+#endif
 		}
 		fflush(stdout);
 
